@@ -16,7 +16,7 @@ execution of every class, i.e. that the hypothesis `hcover` below holds for the 
 CHECKED per program by props/C38/check.py (outcome sets and verdicts of every reduction against the reference
 explorer), not proved.
 -/
-import SgVerif.McRef.Trace
+import SgVerif.McRef.Lts
 import SgVerif.C38.Lemmas
 namespace SgVerif.C38
 open SgVerif.McRef SgVerif.McRef.LTS
@@ -76,16 +76,6 @@ theorem cover_reaches_reference_outcomes (L : LTS σ τ) (dep : τ → τ → Bo
     exact ⟨v, s', hv, ho⟩
 
 /-! ### the reference LTS of the mini-language -/
-
-/-- The reference semantics as an LTS over labels: a label is enabled when it is the label of the enabled transition
-(issuer pid, times_considered) in that state. -/
-def mcLTS : LTS State Label where
-  enabled s l := match indexOfPid s l.aid with
-    | some i => labelAt s i l.tc == some l
-    | none => false
-  exec s l := match indexOfPid s l.aid with
-    | some i => step s i l.tc
-    | none => s
 
 /-- C38 on the reference LTS: for every dependency relation that satisfies the commutation hypothesis on it (C39),
 equivalent executions of every program end in the same state: same outcome vector, same deadlock verdict. -/
